@@ -502,7 +502,7 @@ def fixed_cases():
 
 def generate(rng, tier):
     cases = fixed_cases()
-    n = 3600 if tier == "quick" else 60000
+    n = 3600 if tier == "quick" else 36000
     for _ in range(n):
         cases.append(rand_history(rng))
     return cases
